@@ -48,6 +48,9 @@ pub struct FontM {
 
 /// mode 0: one font through as_tdf_bytes; 1: create_font_bundle; 2: reference encoder -> from_tdf_bytes.
 /// layout (mode 2): bit 0 = glyph records stored in reverse order inside the block, bit 1 = terminating zero byte.
+/// layout (modes 0, 1): bits 0-1 = how the font objects are made (0 fresh, 1 occupied glyph table overwritten, 2 recycled
+/// object read from a file, see FontM::build); bit 2 (mode 1, >= 2 fonts) = the bundle is an APPENDED one: the first half
+/// is written, read back, the loaded fonts plus the rest are written again (load bundle - add fonts - save).
 #[derive(Clone, Debug, Hash, Serialize, Deserialize)]
 pub struct TdfCase {
     pub mode: u8,
@@ -125,14 +128,54 @@ impl FontM {
             _ => FontType::Color,
         }
     }
-    fn build(&self) -> TheDrawFont {
-        let mut f = TheDrawFont::new(self.name.clone(), self.font_type(), self.spacing as i32);
+    fn fill_table(&self, f: &mut TheDrawFont) {
         for (i, g) in self.table().into_iter().enumerate() {
-            if let Some((w, h, data)) = g {
-                f.set_glyph((33 + i as u8) as char, FontGlyph { size: Size::new(w as i32, h as i32), data });
+            let ch = (33 + i as u8) as char;
+            match g {
+                Some((w, h, data)) => f.set_glyph(ch, FontGlyph { size: Size::new(w as i32, h as i32), data }),
+                None => f.clear_glyph(ch),
             }
         }
-        f
+    }
+    /// how 0: a fresh object, only the defined glyphs set; 1: every character first holds another glyph, then the
+    /// table is overwritten (set_glyph / clear_glyph on occupied entries); 2: a recycled object, i.e. a different font
+    /// read from a TDF file whose name, type, spacing and whole glyph table are then reassigned.
+    fn build(&self, how: u8) -> Result<TheDrawFont, String> {
+        let dummy = |k: u8| FontGlyph { size: Size::new(2, 1), data: if k == 2 { vec![b'X', 0x1F, b'Y', 0x2E] } else { vec![b'X', b'Y'] } };
+        match how % 3 {
+            0 => {
+                let mut f = TheDrawFont::new(self.name.clone(), self.font_type(), self.spacing as i32);
+                for (i, g) in self.table().into_iter().enumerate() {
+                    if let Some((w, h, data)) = g {
+                        f.set_glyph((33 + i as u8) as char, FontGlyph { size: Size::new(w as i32, h as i32), data });
+                    }
+                }
+                Ok(f)
+            }
+            1 => {
+                let mut f = TheDrawFont::new(self.name.clone(), self.font_type(), self.spacing as i32);
+                for i in 0..SLOTS {
+                    f.set_glyph((33 + i as u8) as char, dummy(self.kind));
+                }
+                self.fill_table(&mut f);
+                Ok(f)
+            }
+            _ => {
+                let other = FontM {
+                    name: "Recycled".to_string(),
+                    kind: (self.kind + 1) % 3,
+                    spacing: 7,
+                    glyphs: (0..SLOTS).map(|_| GlyphM { slot: 0, w: 2, h: 2, body: Body::Solid(b'#', 0x4F) }).collect(),
+                };
+                let bytes = ref_encode(&[other], 0).ok_or("harness: dummy font not encodable")?;
+                let mut f = TheDrawFont::from_tdf_bytes(&bytes).map_err(|e| e.to_string())?.pop().ok_or("no font read")?;
+                f.name = self.name.clone();
+                f.font_type = self.font_type();
+                f.spaces = self.spacing as i32;
+                self.fill_table(&mut f);
+                Ok(f)
+            }
+        }
     }
 }
 
@@ -414,10 +457,35 @@ pub fn check(c: &TdfCase) -> Verdict {
     }
 
     // writer: model -> TheDrawFont -> as_tdf_bytes / create_font_bundle
-    let built: Vec<TheDrawFont> = fonts.iter().map(FontM::build).collect();
-    // (the constructor and set_glyph are part of the path: what was built must already be the model)
-    if let Err(v) = cmp_engine("tdf.build", &built, fonts) {
+    let how = c.layout & 3;
+    let mut built: Vec<TheDrawFont> = Vec::new();
+    for f in fonts {
+        match f.build(how) {
+            Ok(b) => built.push(b),
+            Err(e) => return Verdict::fail("tdf.build|recycle_error", format!("could not make the font object (how = {how}): {e}")),
+        }
+    }
+    // (the constructor, set_glyph and clear_glyph are part of the path: what was built must already be the model)
+    if let Err(v) = cmp_engine(if how == 0 { "tdf.build" } else { "tdf.build.reused" }, &built, fonts) {
         return v;
+    }
+    let over_any = fonts.iter().any(|f| f.block_len() > 0xFFFF);
+    let appended = c.mode == 1 && c.layout & 4 != 0 && fonts.len() >= 2 && !over_any && fonts.iter().all(|f| f.name.len() <= 12);
+    if appended {
+        let k = fonts.len() / 2;
+        let first = match TheDrawFont::create_font_bundle(&built[..k]) {
+            Ok(b) => b,
+            Err(e) => return Verdict::fail(format!("tdf.write|save_error|{}", err_class(&e.to_string())), format!("create_font_bundle failed for the first {k} font(s): {e}")),
+        };
+        let mut loaded = match TheDrawFont::from_tdf_bytes(&first) {
+            Ok(g) => g,
+            Err(e) => return Verdict::fail(format!("tdf.roundtrip|load_error|{}", err_class(&e.to_string())), format!("from_tdf_bytes rejects the output of create_font_bundle: {e}")),
+        };
+        if let Err(v) = cmp_engine("tdf.roundtrip", &loaded, &fonts[..k]) {
+            return v;
+        }
+        loaded.extend(built.drain(k..));
+        built = loaded;
     }
     let (what, res) = if c.mode == 0 { ("as_tdf_bytes", built[0].as_tdf_bytes()) } else { ("create_font_bundle", TheDrawFont::create_font_bundle(&built)) };
     let name_too_long = fonts.iter().any(|f| f.name.len() > 12);
@@ -472,7 +540,13 @@ pub fn check(c: &TdfCase) -> Verdict {
         return v;
     }
     let mode = if c.mode == 0 { format!("single|{}", kind_name(fonts[0].kind)) } else { format!("bundle|{size_class}") };
-    Verdict::pass(nonempty, format!("write|{mode}|{glyph_class}{}", if non_ascii { "|non_ascii_name" } else { "" }))
+    let target = match (how, appended) {
+        (0, false) => "",
+        (1, false) => "|overwritten_table",
+        (_, false) => "|recycled_object",
+        (_, true) => "|appended_bundle",
+    };
+    Verdict::pass(nonempty, format!("write|{mode}|{glyph_class}{}{target}", if non_ascii { "|non_ascii_name" } else { "" }))
 }
 
 // ------------------------------------------------------------------------------------------------ generators
@@ -541,10 +615,10 @@ fn fit_name(mut f: FontM) -> FontM {
 pub fn cases() -> BoxedStrategy<TdfCase> {
     let bundle = || prop_oneof![5 => vec(any_font(), 1..=3), 3 => vec(small_font(), 1..=12), 1 => vec(small_font(), 30..=34), 1 => vec(small_font(), 34)];
     prop_oneof![
-        6 => any_font().prop_map(|f| TdfCase { mode: 0, layout: 0, fonts: vec![f] }),
+        6 => (any_font(), 0u8..3).prop_map(|(f, layout)| TdfCase { mode: 0, layout, fonts: vec![f] }),
         1 => dense_font().prop_map(|f| TdfCase { mode: 0, layout: 0, fonts: vec![f] }),
         // (names longer than 12 bytes are refused by the writer: they are kept to the single-font mode so that one such name does not void a whole bundle)
-        6 => bundle().prop_map(|fonts| TdfCase { mode: 1, layout: 0, fonts: fonts.into_iter().map(fit_name).collect() }),
+        6 => (bundle(), 0u8..3, prop_oneof![2 => Just(0u8), 1 => Just(4u8)]).prop_map(|(fonts, how, app)| TdfCase { mode: 1, layout: how | app, fonts: fonts.into_iter().map(fit_name).collect() }),
         1 => (vec(small_font(), 0..=2), dense_font()).prop_map(|(mut fonts, d)| { fonts.push(d); TdfCase { mode: 1, layout: 0, fonts: fonts.into_iter().map(fit_name).collect() } }),
         8 => (bundle(), 0u8..4).prop_map(|(fonts, layout)| TdfCase { mode: 2, layout, fonts: fonts.into_iter().map(fit_name).collect() }),
     ]
